@@ -121,6 +121,8 @@ pub fn get_key_value_safe(key: &String, sender: &Sender<String>, db: &Database) 
  * All get keys functions must call this function and parse the result from it
  */
 pub fn get_key_value_new(key: &String, db: &Database) -> Response {
+    #[cfg(feature = "verif_hooks")]
+    crate::verif::yield_point("get_key_value_new:map:read");
     let db = db.map.read().unwrap();
     let (value, version) = match db.get(&key.to_string()) {
         Some(value) => (value.to_string(), value.version),
@@ -138,6 +140,8 @@ pub fn remove_key(key: &String, db: &Database) -> Response {
 }
 
 pub fn is_valid_token(token: &String, db: &Database) -> bool {
+    #[cfg(feature = "verif_hooks")]
+    crate::verif::yield_point("is_valid_token:map:read");
     let db = db.map.read().unwrap();
     match db.get(&TOKEN_KEY.to_string()) {
         Some(value) => {
@@ -149,6 +153,8 @@ pub fn is_valid_token(token: &String, db: &Database) -> bool {
 }
 
 pub fn is_valid_user_token(token: &String, user_name: &String, db: &Database) -> bool {
+    #[cfg(feature = "verif_hooks")]
+    crate::verif::yield_point("is_valid_user_token:map:read");
     let db = db.map.read().unwrap();
     match db.get(&format!("$$user_{}", user_name)) {
         Some(value) => {
@@ -207,6 +213,8 @@ pub fn unwatch_key(key: &String, sender: &Sender<String>, db: &Database) -> Resp
     log::debug!("Senders before unwatch {:?}", senders.len());
     senders.retain(|x| !x.same_receiver(&sender));
     log::debug!("Senders after unwatch {:?}", senders.len());
+    #[cfg(feature = "verif_hooks")]
+    crate::verif::yield_point("unwatch_key:watchers:write");
     let mut watchers = db.watchers.map.write().expect("db.watchers.map.lock");
     watchers.insert(key.clone(), senders);
     Response::Ok {}
@@ -218,6 +226,8 @@ pub fn watch_key(key: &String, sender: &Sender<String>, db: &Database) -> Respon
 
 pub fn unwatch_all(sender: &Sender<String>, db: &Database) -> Response {
     log::debug!("Will unwatch_all");
+    #[cfg(feature = "verif_hooks")]
+    crate::verif::yield_point("unwatch_all:watchers:write");
     let watchers = db
         .watchers
         .map
@@ -273,6 +283,8 @@ pub fn create_init_dbs(
 }
 
 pub fn get_senders(key: &String, watchers: &Watchers) -> Vec<Sender<String>> {
+    #[cfg(feature = "verif_hooks")]
+    crate::verif::yield_point("get_senders:watchers:read");
     let watchers = watchers
         .map
         .read()
